@@ -87,7 +87,7 @@ def inject(src, rng):
 
 
 def run(ctx, rep):
-    n = ctx.n(500, 20000)
+    n = ctx.n(500, 6000)
     bases, twins, meta = [], [], []
     for k in range(n):
         rng = random.Random(f"C05:{ctx.seed}:{k}")
